@@ -1,5 +1,6 @@
 //! Interface `instruction::process`: stdin one case per line
-//!   <F|R> <pc> <mnemonic> <operands separated by ',' or '-' for none>
+//!   <F|R|D:device-name> <pc> <mnemonic> <operands separated by ',' or '-' for none>
+//! (F = no device selected, R = the reduced-core device of the table, D:<name> = that row of DEVICES)
 //! operands: r<n> | e<i64> | n<ident> | X X+ -X Y Y+ -Y Z Z+ -Z | X+q<i64> Y+q<i64> Z+q<i64>
 //! stdout per case: lower-case hex of the bytes | ERR | PANIC
 use crate::tables::ctx_for;
@@ -38,13 +39,24 @@ pub fn parse_arg(a: &str) -> InstructionOps {
 pub fn main() -> i32 {
     let full = ctx_for(false);
     let red = ctx_for(true);
+    let mut by_name: std::collections::HashMap<String, avra_lib::context::CommonContext> = std::collections::HashMap::new();
     let mut out = String::new();
     for line in read_stdin().lines() {
         let f: Vec<&str> = line.split(' ').collect();
         if f.len() != 4 {
             continue;
         }
-        let ctx = if f[0] == "R" { &red } else { &full };
+        let ctx = if let Some(name) = f[0].strip_prefix("D:") {
+            &*by_name.entry(name.to_string()).or_insert_with(|| {
+                let c = avra_lib::context::CommonContext::new();
+                c.device.replace(Some(avra_lib::device::DEVICES[name].clone()));
+                c
+            })
+        } else if f[0] == "R" {
+            &red
+        } else {
+            &full
+        };
         let pc: u32 = f[1].parse().unwrap();
         let op = document::operation(f[2]).unwrap();
         let args: Vec<InstructionOps> = if f[3] == "-" { vec![] } else { f[3].split(',').map(parse_arg).collect() };
